@@ -11,7 +11,8 @@ import hl  # noqa: E402
 TYPES = ["ThreadKey", "Mutex", "MutexGuard", "MutexRef", "RwLock", "RwLockReadGuard", "RwLockReadRef",
          "RwLockWriteGuard", "RwLockWriteRef", "BoxedLockCollection", "RefLockCollection", "OwnedLockCollection",
          "RetryingLockCollection", "LockGuard", "Poisonable", "PoisonGuard", "PoisonRef", "PoisonError"]
-TRAITS = ["Clone", "Copy", "Default", "Deref", "DerefMut", "AsRef", "AsMut", "IntoIterator", "Drop"]
+TRAITS = ["Clone", "Copy", "Default", "Deref", "DerefMut", "AsRef", "AsMut", "IntoIterator", "Drop", "Borrow", "BorrowMut",
+          "Index", "IndexMut", "Extend", "LockableGetMut", "FromIterator"]
 GUARDS = ["MutexGuard", "RwLockReadGuard", "RwLockWriteGuard", "LockGuard", "PoisonGuard"]
 ENTRY = ["raw", "new_unchecked", "guard", "data_mut", "data_ref", "read_guard", "raw_write", "raw_try_write",
          "raw_unlock_write", "raw_read", "raw_try_read", "raw_unlock_read", "try_lock_no_key", "try_read_no_key"]
@@ -189,6 +190,12 @@ def generate():
                     n = inner["resolved_path"]["path"].split("::")[-1]
                     if n in TYPES and tname in ("IntoIterator",):
                         timpls.append((n, tname + "&"))
+            if "borrowed_ref" in forty and forty["borrowed_ref"]["is_mutable"]:
+                inner = forty["borrowed_ref"]["type"]
+                if "resolved_path" in inner:
+                    n = inner["resolved_path"]["path"].split("::")[-1]
+                    if n in TYPES and tname in ("IntoIterator",):
+                        timpls.append((n, tname + "&mut"))
     # trait methods of the public traits RawLock / Lockable / Sharable
     for k, v in idx.items():
         if "trait" in v["inner"] and v.get("name") in ("RawLock", "Lockable", "Sharable"):
@@ -235,11 +242,13 @@ def fn_row(owner, fitem, im, trait=None, trait_public=True):
     f = fitem["inner"]["function"]
     sig = f["sig"]
     self_lt = None
+    mut_self = False
     key_val = keyable_val = guard_val = False
     closure_escapes = False
     for pname, pty in sig["inputs"]:
         if pname == "self" and isinstance(pty, dict) and "borrowed_ref" in pty:
             self_lt = pty["borrowed_ref"].get("lifetime")
+            mut_self = bool(pty["borrowed_ref"].get("is_mutable"))
     generic_keyable = set()
     for p in f["generics"]["params"]:
         kd = p["kind"]
@@ -271,7 +280,7 @@ def fn_row(owner, fitem, im, trait=None, trait_public=True):
                 keyable_val=keyable_val, guard_val=guard_val, returns_key=mentions(out, "ThreadKey") or
                 (isinstance(out, dict) and any(mentions_generic(out, g) for g in generic_keyable)),
                 returns_guard=any(mentions(out, g) for g in GUARDS), closure_escapes=closure_escapes,
-                returns_shared_child=returns_shared_child, trait=trait or "")
+                returns_shared_child=returns_shared_child, mut_self=mut_self, trait=trait or "")
 
 
 def mentions_generic(t, g):
@@ -296,7 +305,7 @@ def render(rules, timpls, fns, key_public_field, nonkey_public_fields, keyable_i
          "Record autorule := mkrule { r_ty : string; r_marker : marker; r_negative : bool; r_synthetic : bool; r_bounds : list bound }.",
          "Record fnrow := mkfn { fn_owner : string; fn_name : string; fn_trait : string; fn_public : bool; fn_unsafe : bool;",
          "  fn_key_val : bool; fn_keyable_val : bool; fn_guard_val : bool; fn_returns_key : bool; fn_returns_guard : bool;",
-         "  fn_closure_escapes : bool; fn_returns_shared_child : bool }.", ""]
+         "  fn_closure_escapes : bool; fn_returns_shared_child : bool; fn_mut_self : bool }.", ""]
     o.append("Definition auto_rules : list autorule := [")
     rl = []
     for name, tr, neg, syn, bs in sorted(rules):
@@ -317,7 +326,7 @@ def render(rules, timpls, fns, key_public_field, nonkey_public_fields, keyable_i
         seen.add(key)
         fl.append(f'  mkfn "{f["owner"]}" "{f["name"]}" "{f["trait"]}" {cb(f["public"])} {cb(f["unsafe"])} {cb(f["key_val"])} '
                   f'{cb(f["keyable_val"])} {cb(f["guard_val"])} {cb(f["returns_key"])} {cb(f["returns_guard"])} '
-                  f'{cb(f["closure_escapes"])} {cb(f["returns_shared_child"])}')
+                  f'{cb(f["closure_escapes"])} {cb(f["returns_shared_child"])} {cb(f["mut_self"])}')
     o.append(";\n".join(fl))
     o.append("].\n")
     o.append(f"Definition key_has_public_field : bool := {cb(key_public_field)}.")
